@@ -45,6 +45,10 @@ ASSUMPTIONS = [
     "tagged class 'reset of an always-valued type': CONF_CHANGED may name a Boolean/Integer/Float/... option by its bare "
     "keyword (Tor itself always prints a value for those); the read must then be the parsed config/defaults entry, or the "
     "DEFAULT marker when none is known",
+    "class 'save x event': a local edit + save() that Tor accepts or rejects (513/552), with a CONF_CHANGED from another "
+    "controller for the same option after the answer or while the SETCONF is in flight (in flight + accepted only with the "
+    "echo on, as Tor does); reads must equal what Tor holds once both have been delivered; reads after a rejection that no "
+    "event followed are not judged; the rejected change is then replaced by an accepted one",
     "class 'during-attach': CONF_CHANGED events are delivered between the GETCONF round trips of the attach (before or "
     "after the reply of the k-th GETCONF), for options already fetched and not yet fetched; the finished view is compared "
     "with what Tor holds then",
@@ -69,13 +73,13 @@ ANCHORS = [
 FLOORS = {
     "quick": {"evaluations": 300, "bootstrap_reads_compared": 5000, "events_delivered": 300, "event_reads_compared": 4000,
               "tracking_probes": 250, "name_lookups_compared": 10000, "socks_endpoint_checks": 600,
-              "attach_events_delivered": 100,
+              "attach_events_delivered": 100, "events_after_rejected_save": 60, "events_after_accepted_save": 30,
               "reach:txtorcon.torconfig:TorConfig._conf_changed": 400,
               "reach:txtorcon.torconfig:TorConfig._do_setup": 300,
               "reach:txtorcon.torconfig:TorConfig._get_defaults": 300},
     "thorough": {"evaluations": 5000, "bootstrap_reads_compared": 80000, "events_delivered": 4000,
                  "event_reads_compared": 60000, "tracking_probes": 3500, "name_lookups_compared": 150000,
-                 "socks_endpoint_checks": 8000, "attach_events_delivered": 1500, "reach:txtorcon.torconfig:TorConfig._conf_changed": 5000},
+                 "socks_endpoint_checks": 8000, "attach_events_delivered": 1500, "events_after_rejected_save": 1000, "reach:txtorcon.torconfig:TorConfig._conf_changed": 5000},
 }
 
 
@@ -170,6 +174,42 @@ def natural(typ, raw):
     return raw
 
 
+def list_value(rnd, o, shape):
+    """a whole-list value a user would assign to a list option"""
+    vals = CT.gen_values(rnd, o["type"], shape)
+    if CT.kind_of(o["type"]) == "commalist":
+        return [x.strip() for x in vals[0].split(",")] if vals else ["80"]
+    return vals or [gen_probe_value(rnd, o, 7)]
+
+
+def gen_save_event(rnd, table, echo, i):
+    """a local edit + save() that Tor accepts or rejects, and a CONF_CHANGED from another controller for
+    the same option after the answer or while the SETCONF is in flight; after a rejection the local
+    change is replaced by an accepted one"""
+    o = rnd.choice(table)
+    typ = o["type"]
+    st = {"op": "save_event", "opt": o["name"], "name": CT.anycase(rnd, o["name"])}
+    if not CT.is_listy(typ):
+        st["edit"], st["value"] = "assign", natural(typ, CT.gen_scalar_raw(rnd, typ))
+    elif rnd.random() < 0.6:
+        st["edit"], st["value"] = "append", gen_probe_value(rnd, o, i)
+    else:
+        st["edit"], st["value"] = "assign", list_value(rnd, o, rnd.choice(["single", "multi"]))
+    st["reply"] = rnd.choice(["ok", "ok", 513, 513, 552])
+    if st["reply"] != "ok":
+        st["when"] = rnd.choice(["after", "after", "inflight"])
+    else:
+        st["when"] = rnd.choice(["after", "after", "after", "inflight" if echo else "after", None])
+    vals = CT.gen_values(rnd, typ, rnd.choice(["unset", "single", "multi", "multi"]))
+    st["items"] = [[o["name"], v] for v in vals] or [[o["name"], None]]
+    if rnd.random() < 0.3:
+        st["items"] += [it for it in gen_event(rnd, table, valued_reset=False)["items"] if it[0] != o["name"]]
+    if st["reply"] != "ok":
+        st["resolve"] = natural(typ, CT.gen_scalar_raw(rnd, typ)) if not CT.is_listy(typ) \
+            else list_value(rnd, o, rnd.choice(["single", "multi"]))
+    return st
+
+
 def gen_case(rnd, mode):
     if mode in ("boot", "attach"):
         table = CT.gen_table(rnd, every_type=rnd.random() < 0.7)
@@ -199,9 +239,11 @@ def gen_case(rnd, mode):
     scalars = [o for o in table if not CT.is_listy(o["type"])]
     for i in range(nsteps):
         r = rnd.random()
-        if r < 0.6:
+        if r < 0.5:
             case["steps"].append(gen_event(rnd, table))
-        elif r < 0.85 and listy:
+        elif r < 0.66:
+            case["steps"].append(gen_save_event(rnd, table, case["echo"], 200 + i))
+        elif r < 0.87 and listy:
             o = rnd.choice(listy)
             case["steps"].append({"op": "cycle", "opt": o["name"], "name": CT.anycase(rnd, o["name"]),
                                   "value": gen_probe_value(rnd, o, 100 + i)})
@@ -376,6 +418,84 @@ class Run(object):
         self.boot_touch[n] = None
         self.echoed[n] = self.case["echo"]
 
+    # -- local save (accepted / rejected) x CONF_CHANGED for the same option -------------
+    def event_touch(self, changed, suffix_for=None, suffix=""):
+        for n in changed:
+            if n in self.table:
+                o = self.table[n]
+                self.touch[n] = "%s+%s%s" % (klass(o), count_class(o, self.tor.conf.get(n)),
+                                             suffix if n == suffix_for else "")
+                self.boot_touch[n] = None
+
+    def save_event(self, st):
+        from twisted.python.failure import Failure
+        cfg, tor, link, rec = self.cfg, self.tor, self.link, self.rec
+        n, o = st["opt"], self.table[st["opt"]]
+        reply, when = st["reply"], st["when"]
+        items = [(k, v) for k, v in st["items"]]
+        tag = "+%s-%s-save" % ({"after": "after", "inflight": "during", None: "no-event"}[when],
+                               "accepted" if reply == "ok" else "rejected")
+        cls = klass(o) + tag
+        rec.seen("save_event_classes", cls)
+        del tor.scripted[:]
+        if reply != "ok":
+            tor.script("SETCONF", (reply, [("end", "Unacceptable option value: rejected by the fake Tor")]))
+        out = []
+        try:
+            if st["edit"] == "append":
+                self.read(st["name"]).append(st["value"])
+            else:
+                v = st["value"]
+                setattr(cfg, st["name"], list(v) if isinstance(v, list) else v)
+            cfg.save().addBoth(out.append)
+        except Exception as e:
+            self.V("edit-save-raised-" + type(e).__name__, cls, {"step": st, "exc": repr(e)})
+            self.flush()
+        changed = []
+        if when == "inflight":
+            changed = tor.external_change(items)      # announced before Tor answers our SETCONF
+        link.pump()
+        del tor.scripted[:]
+        rec.count("save_event_steps")
+        if len(out) != 1 or isinstance(out[0], Failure) != (reply != "ok"):
+            self.V("save-outcome", cls, {"fired": len(out), "failed": [isinstance(x, Failure) for x in out]})
+        if when == "after":
+            changed = tor.external_change(items)
+            link.pump()
+        if changed:
+            rec.count("events_delivered")
+        judged = True
+        if reply == "ok":
+            self.event_touch(set(changed) | {n}, n, tag)
+            rec.count("events_after_accepted_save" if n in changed else "accepted_saves_without_event")
+        elif n in changed:
+            self.event_touch(changed, n, tag)
+            rec.count("events_after_rejected_save")
+        else:
+            judged = False          # nothing announced for the option: reads after a rejection are not specified
+            self.event_touch(changed)
+            rec.count("rejected_saves_without_event_not_judged")
+        self.logged("event", cls)
+        if judged:
+            self.check_reads("event", "event_reads_compared")
+            self.flush()
+        if reply != "ok":
+            # replace the rejected local change by one Tor accepts, so that nothing stale stays pending
+            try:
+                v = st["resolve"]
+                setattr(cfg, st["name"], list(v) if isinstance(v, list) else v)
+                cfg.save()
+            except Exception as e:
+                self.V("edit-save-raised-" + type(e).__name__, cls, {"step": st, "exc": repr(e)})
+                self.flush()
+            link.pump()
+            self.event_touch([n], n, "" if self.case["echo"] else "+own-save")
+            if cfg.needs_save():
+                self.V("needs-save-after-ack", cls, {"option": n})
+            self.logged("save", cls)
+            self.check_reads("event" if self.case["echo"] else "save", "save_reads_compared")
+            self.flush()
+
     # -- the case ------------------------------------------------------------------
     def run(self):
         case, rec = self.case, self.rec
@@ -491,6 +611,8 @@ class Run(object):
                         self.flush()
                 self.check_reads("event" if case["echo"] else "save", "save_reads_compared")
                 self.flush()
+            elif st["op"] == "save_event":
+                self.save_event(st)
             elif st["op"] == "cycle":
                 self.probe(st["opt"], st["name"], st["value"], "cycle")
                 self.flush()
